@@ -185,7 +185,12 @@ func (a *AreaMembers) Clone() AreaMembers {
 		ids:      make([][]b6.FeatureID, len(a.ids)),
 		polygons: make([]*s2.Polygon, len(a.polygons)),
 	}
-	copy(clone.ids, a.ids)
+	for i, ids := range a.ids {
+		if ids != nil {
+			clone.ids[i] = make([]b6.FeatureID, len(ids))
+			copy(clone.ids[i], ids)
+		}
+	}
 	copy(clone.polygons, a.polygons)
 	return clone
 }
@@ -479,8 +484,8 @@ func (c *CollectionFeature) Clone() Feature {
 	return &CollectionFeature{
 		CollectionID: c.CollectionID,
 		Tags:         c.Tags.Clone(),
-		Keys:         c.Keys,
-		Values:       c.Values,
+		Keys:         slices.Clone(c.Keys),
+		Values:       slices.Clone(c.Values),
 		sorted:       c.sorted,
 	}
 }
@@ -495,9 +500,9 @@ func (c *CollectionFeature) MergeFrom(other Feature) {
 
 func (c *CollectionFeature) MergeFromCollectionFeature(other *CollectionFeature) {
 	c.CollectionID = other.CollectionID
-	c.Tags = other.Tags
-	c.Keys = other.Keys
-	c.Values = other.Values
+	c.Tags = other.Tags.Clone()
+	c.Keys = slices.Clone(other.Keys)
+	c.Values = slices.Clone(other.Values)
 	c.sorted = other.sorted
 }
 
